@@ -19,9 +19,25 @@ argument keys, tags, sharing — with the DAG the real `as_buildable` returns; t
 compares real builds with real direct calls. Calls of other auto_config functions, `exempt`,
 lambdas, `*`/`**` splats and control flow are outside the modelled subset (checked by the
 oracle only): `_partial`.
+
+The direct call has its own semantics in the model (`CExpr.call`: a call expression *invokes*
+its callable — what it receives is `bindBuilt`, C01's binding — and a display makes a
+container). Two theorems then state the property itself, for every program of the language:
+  * `C11_direct_call_is_config_graph`: the direct call and `as_buildable` run in lock-step —
+    they return the same reference and object `k` of the direct call is configuration object
+    `k` with its call made (`builtOf`);
+  * `C11_direct_call_succeeds_when_calls_bind`: the converse — the direct call fails only where
+    the binding of one of the calls fails;
+  * `C11_build_equals_direct_call`: whenever `fdl.build` of that configuration succeeds, the
+    object it makes for configuration object `i` is the direct call's object `i` with its
+    references renamed by the build's memo, the renaming is one-to-one (same sharing), and the
+    built root is the image of the value the direct call returned.
+  * `C11_build_of_as_buildable_succeeds`: and that build does succeed whenever the direct call
+    returns (acyclic configuration, every call binds, the traversal's fuel suffices).
 -/
 import FiddleModel.Lemmas.CodegenL
 import FiddleModel.Lemmas.BuildMirror
+import FiddleModel.Lemmas.CallEval
 
 namespace Fiddle
 
@@ -57,6 +73,63 @@ theorem C11_build_mirrors_program_partial (p : CProg) (root : GVal) (h : Heap)
   have hs := buildVal_step h fails _ root [] {} r st hb (BuildSt.inv_init h)
   exact ⟨build_mirror h fails root r st hb, hs.1.inv.nodup, hs.1.inv.inj⟩
 
+/-- Calling the function and evaluating it into a configuration run in lock-step: same
+    returned reference, and the direct call's objects are exactly the configuration's objects
+    with each recorded call made (nothing else is created, in the same order). -/
+theorem C11_direct_call_is_config_graph (p : CProg) (r : GVal) (out : List BObj)
+    (hc : p.callRun = some (r, out)) :
+    ∃ h, p.run = some (r, h) ∧ h.map builtOf = out.map some :=
+  p.callRun_lockstep r out hc
+
+/-- Conversely the direct call fails only where Python's binding of some call fails: if the
+    program evaluates into a configuration all of whose recorded calls bind, the direct call
+    returns (the same reference, with the lock-step image). -/
+theorem C11_direct_call_succeeds_when_calls_bind (p : CProg) (r : GVal) (h : Heap)
+    (hp : p.run = some (r, h)) (hall : ∀ o ∈ h, (builtOf o).isSome) :
+    ∃ out, p.callRun = some (r, out) ∧ h.map builtOf = out.map some :=
+  p.run_lockstep r h hp hall
+
+/-- `fdl.build(fn.as_buildable())` is `fn()`: every object the build makes is the object the
+    direct call made for the same program point, up to the (one-to-one) renaming of references
+    the build's memo induces; the built root is the image of the returned value. -/
+theorem C11_build_equals_direct_call (p : CProg) (root root' : GVal) (out : List BObj) (h : Heap)
+    (hc : p.callRun = some (root, out)) (hp : p.run = some (root', h))
+    (r : BVal) (st : BuildSt) (hb : build h [] root' = .ok (r, st)) :
+    root' = root ∧ r = renV (buildRen st) (toB root) ∧
+    (∀ i j, memoGet st.memo i = some (.built j) →
+      st.out[j]? = (out[i]?).map (renO (buildRen st))) ∧
+    (∀ i j a, memoGet st.memo i = some (.built a) → memoGet st.memo j = some (.built a) → i = j) := by
+  obtain ⟨h1, hp1, hi⟩ := p.callRun_lockstep root out hc
+  rw [hp] at hp1
+  simp only [Option.some.injEq, Prod.mk.injEq] at hp1
+  obtain ⟨rfl, rfl⟩ := hp1
+  have hs := buildVal_step h [] _ root' [] {} r st hb (BuildSt.inv_init h)
+  refine ⟨rfl, ?_, fun i j hij => built_is_renamed_call h out st hi
+    (build_mirror h [] root' r st hb) i j hij, hs.1.inv.inj⟩
+  rw [← resultOf_eq_ren]
+  cases root' with
+  | atom t =>
+    simp only [build, buildVal] at hb
+    simp only [Except.ok.injEq, Prod.mk.injEq] at hb
+    rw [← hb.1]; rfl
+  | ref i =>
+    have := hs.2 i rfl
+    simp [resultOf, this]
+
+/-- ... and the build does succeed: whenever the direct call of a program returns, `fdl.build`
+    of the configuration `as_buildable` made for it returns too (the configuration is acyclic,
+    every one of its calls binds, and the traversal's fuel suffices) — so with the previous
+    theorem, for *every* program of the language whose direct call returns,
+    `fdl.build(fn.as_buildable())` returns the direct call's object graph up to a one-to-one
+    renaming of object identities. -/
+theorem C11_build_of_as_buildable_succeeds (p : CProg) (root : GVal) (out : List BObj)
+    (hc : p.callRun = some (root, out)) :
+    ∃ h r st, p.run = some (root, h) ∧ build h [] root = .ok (r, st) := by
+  obtain ⟨h, hp, hi⟩ := p.callRun_lockstep root out hc
+  obtain ⟨wf, hr⟩ := p.run_wf root h hp
+  obtain ⟨r, st, hb⟩ := build_total h wf hi.binds root hr
+  exact ⟨h, r, st, hp, hb⟩
+
 /-! ## Non-vacuity: `x = f(); return g(a=x, b=[x])` -/
 
 private def prog : CProg :=
@@ -67,5 +140,15 @@ private def prog : CProg :=
 example : (prog.run).map (fun r => (r.1, r.2.map (·.children))) =
     some (.ref 2, [[], [(.index 0, .ref 0)], [(.attr "a", .ref 0), (.attr "b", .ref 1)]]) := by
   decide
+
+private def sigG : Sig := [{ name := "a", kind := .pk, dflt := false }, { name := "b", kind := .pk, dflt := false }]
+private def prog2 : CProg :=
+  { assigns := [(0, .node .cfg "f" "Config" [] [] [])],
+    ret := .node .cfg "g" "Config" sigG [(.attr "a", .var 0),
+      (.attr "b", .node .list "" "" [] [(.index 0, .var 0)] [])] [] }
+
+example : prog2.callRun = some (.ref 2,
+    [.call "f" [] [] [], .container .list "" [(.index 0, .built 0)],
+     .call "g" [("a", .built 0), ("b", .built 1)] [] []]) := by decide
 
 end Fiddle
